@@ -37,6 +37,7 @@ HasSetter(k, o) == CASE o \in {"code", "diag", "matched"} -> TRUE        \* embe
                      [] o = "ctls" -> k \in {"bind", "done"}
                      [] o = "addattr" -> k = "entry"
                      [] o = "name" -> k = "extended"
+                     [] o = "write" -> TRUE           \* not a setter: "write the response now and keep changing the same object"
 
 Blank(k) == [kind |-> k, tag |-> KindTag(k), code |-> 0, matched |-> "", diag |-> "", ctls |-> <<>>, map |-> <<>>, added |-> <<>>,
              setcode |-> FALSE, setmatched |-> FALSE, setdiag |-> FALSE]
@@ -60,6 +61,14 @@ RECURSIVE FoldSets(_, _)
 FoldSets(r, ts) == IF Len(ts) = 0 THEN r ELSE FoldSets(ApplySet(r, Head(ts)), Tail(ts))
 \* a response spec: [kind, opts, sets] with only setters the type has
 Build(rs) == FoldSets(FoldOpts(Blank(rs.kind), rs.opts), rs.sets)
+\* the frames one response spec puts on the wire: a snapshot at every "write" token and the final Write
+RECURSIVE Snap(_, _, _)
+Snap(r, ts, acc) == IF Len(ts) = 0 THEN Append(acc, r)
+                    ELSE IF Head(ts).o = "write" THEN Snap(r, Tail(ts), Append(acc, r))
+                    ELSE Snap(ApplySet(r, Head(ts)), Tail(ts), acc)
+Expand(rs) == Snap(FoldOpts(Blank(rs.kind), rs.opts), rs.sets, <<>>)
+RECURSIVE ExpAll(_)
+ExpAll(rss) == IF Len(rss) = 0 THEN <<>> ELSE Expand(Head(rss)) \o ExpAll(Tail(rss))
 WellTyped(rs) == \A i \in 1..Len(rs.sets) : HasSetter(rs.kind, rs.sets[i].o)
 
 --------------------------------------------------------------------------
@@ -75,7 +84,9 @@ New(k) == cur = None /\ Len(wire) < MaxWrites /\ cur' = Blank(k) /\ nopt' = 0 /\
 Opt(t) == cur # None /\ nset = 0 /\ nopt < MaxOpts /\ cur' = ApplyOpt(cur, t) /\ nopt' = nopt + 1 /\ UNCHANGED <<nset, wire>>
 Set(t) == cur # None /\ nset < MaxSets /\ HasSetter(cur.kind, t.o) /\ cur' = ApplySet(cur, t) /\ nset' = nset + 1 /\ UNCHANGED <<nopt, wire>>
 Write  == cur # None /\ wire' = Append(wire, cur) /\ cur' = None /\ UNCHANGED <<nopt, nset>>
-RNext == ((\E k \in Kinds : New(k)) \/ (\E t \in OptToks : Opt(t)) \/ (\E t \in SetToks : Set(t)) \/ Write) /\ UNCHANGED cstep
+\* ... or written and kept: the handler goes on changing the same object and writes it again
+WriteKeep == cur # None /\ Len(wire) + 1 < MaxWrites /\ wire' = Append(wire, cur) /\ UNCHANGED <<cur, nopt, nset>>
+RNext == ((\E k \in Kinds : New(k)) \/ (\E t \in OptToks : Opt(t)) \/ (\E t \in SetToks : Set(t)) \/ Write \/ WriteKeep) /\ UNCHANGED cstep
 RSpec == RInit /\ [][RNext]_rvars
 
 \* C04 at design level: the tag is the constructor's (or the application code given), controls only where
